@@ -19,7 +19,8 @@
 (***************************************************************************)
 EXTENDS Integers, Sequences, FiniteSets, TLC, Json, SequencesExt
 
-CONSTANT HistLen
+CONSTANT HistLen,
+         GenLevel   \* size of the generated family of composite output types: 1 (quick), 2 (thorough)
 Evals == 1..3
 Keys == 1..2
 Ctrs == 1..2
@@ -27,15 +28,53 @@ Tys == 1..2
 
 TyS(st) == [k |-> "s", st |-> st]
 TyA(sh, st) == [k |-> "a", st |-> st, sh |-> sh]
+TyV(nn, of) == [k |-> "v", n |-> nn, of |-> of]
+TyT(el) == [k |-> "t", el |-> el]
+TyN(nm, el) == [k |-> "n", nm |-> nm, el |-> el]
 TyPerm(nn) == [k |-> "perm", n |-> nn]
 \* 1, 2: the types of the interleaving model; the others are used by the fixed histories
-TypesTab == << TyS("u64"), TyA(<<13>>, "b"),
+BaseTypes == << TyS("u64"), TyA(<<13>>, "b"),
                TyA(<<8>>, "u8"), TyA(<<64>>, "u8"), TyA(<<65>>, "u8"), TyA(<<512>>, "u8"), TyA(<<513>>, "u8"),
                TyA(<<5000>>, "u8"), TyA(<<4097>>, "b"), TyS("b"), TyA(<<7>>, "b"), TyS("i128"), TyA(<<3>>, "u64"),
                TyA(<<2, 3>>, "i32"), TyS("u8"), TyA(<<3, 3>>, "b"),
                [k |-> "t", el |-> << TyA(<<5>>, "b"), [k |-> "v", n |-> 2, of |-> TyA(<<33>>, "u64")], TyS("b") >>],
                [k |-> "n", nm |-> <<"a", "b">>, el |-> << TyA(<<70>>, "u8"), [k |-> "t", el |-> <<TyS("i16"), TyA(<<9>>, "b")>>] >>],
                TyPerm(1), TyPerm(2), TyPerm(5), TyPerm(16), TyPerm(17), TyPerm(64), TyPerm(300), TyPerm(1000) >>
+
+(***************************************************************************)
+(* The generated family of composite output types.  Leaves are scalars and  *)
+(* arrays whose bit size is / is not a multiple of 8 (the latter have unused *)
+(* bits in their last byte); composites are every vector length of GenNs    *)
+(* over every leaf (lengths 0, 1, few, and enough elements to cross the     *)
+(* 64- and 512-byte batches of the stream), every pair of leaves as tuple   *)
+(* and named tuple, and the two-level nestings vector-of-tuple,             *)
+(* vector-of-named-tuple, vector-of-vector, tuple-of-vector.                *)
+(***************************************************************************)
+GenSub == << TyS("b"), TyA(<<3>>, "b"), TyA(<<3, 5>>, "b"), TyA(<<9>>, "b") >> \o
+          (IF GenLevel >= 2 THEN << TyA(<<1>>, "b"), TyA(<<2, 2>>, "b"), TyA(<<17>>, "b"), TyA(<<7, 9>>, "b"), TyA(<<65>>, "b"),
+                                    TyA(<<2, 3, 5>>, "b") >> ELSE <<>>)
+GenAligned == << TyA(<<8>>, "b"), TyS("u8"), TyA(<<3>>, "i16"), TyS("u64") >> \o
+              (IF GenLevel >= 2 THEN << TyA(<<2, 2, 2>>, "b"), TyA(<<16>>, "b"), TyS("i128"), TyA(<<2, 3>>, "i32") >> ELSE <<>>)
+GenLeaves == GenSub \o GenAligned
+GenNs == IF GenLevel >= 2 THEN <<0, 1, 2, 3, 5, 8, 9, 40, 64, 65, 70, 512, 513, 600, 3000>> ELSE <<0, 1, 2, 3, 40, 70, 600>>
+GenSmallNs == IF GenLevel >= 2 THEN <<1, 2, 3, 7>> ELSE <<2, 3>>
+\* all f(aa[i], bb[j]) as one sequence
+Cross2(ff(_, _), aa, bb) == FlattenSeq([ii \in 1..Len(aa) |-> [jj \in 1..Len(bb) |-> ff(aa[ii], bb[jj])]])
+GenPairs == Cross2(LAMBDA t1, t2 : <<t1, t2>>, GenLeaves, GenLeaves)
+GenSubPairs == Cross2(LAMBDA t1, t2 : <<t1, t2>>, GenSub, GenSub) \o
+               Cross2(LAMBDA t1, t2 : <<t1, t2>>, GenSub, SubSeq(GenAligned, 1, 2)) \o
+               Cross2(LAMBDA t1, t2 : <<t1, t2>>, SubSeq(GenAligned, 1, 2), GenSub)
+GenVectors == Cross2(LAMBDA nn, tl : TyV(nn, tl), GenNs, GenLeaves)
+GenTuples == [ii \in 1..Len(GenPairs) |-> TyT(GenPairs[ii])]
+GenNamed == [ii \in 1..Len(GenSubPairs) |-> TyN(<<"a", "b">>, GenSubPairs[ii])]
+GenTriples == [ii \in 1..Len(GenSubPairs) |-> TyT(<<GenSubPairs[ii][1], GenSubPairs[ii][2], GenSubPairs[ii][1]>>)]
+GenVecOfTuple == Cross2(LAMBDA nn, pr : TyV(nn, TyT(pr)), GenSmallNs, GenSubPairs)
+GenVecOfNamed == Cross2(LAMBDA nn, pr : TyV(nn, TyN(<<"p", "q">>, pr)), GenSmallNs, SubSeq(GenSubPairs, 1, Len(GenSub) * Len(GenSub)))
+GenVecOfVec == Cross2(LAMBDA nn, tv : TyV(nn, tv), GenSmallNs, Cross2(LAMBDA nn, tl : TyV(nn, tl), GenSmallNs, GenLeaves))
+GenTupleOfVec == Cross2(LAMBDA tv, tl : TyT(<<tv, tl>>), Cross2(LAMBDA nn, tl : TyV(nn, tl), <<2, 40>>, GenSub), GenSub) \o
+                 Cross2(LAMBDA tl, tv : TyT(<<tl, tv>>), GenSub, Cross2(LAMBDA nn, tl : TyV(nn, tl), <<3>>, GenSub))
+GenTypes == GenVectors \o GenTuples \o GenNamed \o GenTriples \o GenVecOfTuple \o GenVecOfNamed \o GenVecOfVec \o GenTupleOfVec
+TypesTab == BaseTypes \o GenTypes
 ExtraTys == 3..Len(TypesTab)
 
 VARIABLES cache,   \* evaluator -> set of keys for which it holds a Prf object
@@ -64,8 +103,11 @@ EnabledCalls == { <<ee, ky, ct, ty>> : ee \in NextEvals, ky \in Keys, ct \in Ctr
 
 FixedCalls(ty) == << <<1, 1, 1>>, <<1, 1, 1>>, <<2, 1, 1>>, <<1, 2, 1>>, <<1, 1, 2>>, <<2, 1, 2>>, <<3, 2, 1>>,
                      <<1, 1, 3>>, <<2, 1, 4>>, <<1, 1, 1>>, <<3, 2, 2>> >>
-FixedHist(ty) == [ii \in 1..Len(FixedCalls(ty)) |->
-                    [e |-> FixedCalls(ty)[ii][1], key |-> FixedCalls(ty)[ii][2], ctr |-> FixedCalls(ty)[ii][3], ty |-> ty]]
+\* the shorter history of the types of the generated family
+GenCalls == << <<1, 1, 1>>, <<2, 1, 1>>, <<1, 2, 1>>, <<1, 1, 2>>, <<2, 2, 1>>, <<1, 1, 1>> >>
+CallsOf(ty) == IF ty <= Len(BaseTypes) THEN FixedCalls(ty) ELSE GenCalls
+FixedHist(ty) == [ii \in 1..Len(CallsOf(ty)) |->
+                    [e |-> CallsOf(ty)[ii][1], key |-> CallsOf(ty)[ii][2], ctr |-> CallsOf(ty)[ii][3], ty |-> ty]]
 TabOf(hh) == [cc \in { <<hh[ii].key, hh[ii].ctr, hh[ii].ty>> : ii \in 1..Len(hh) } |-> cc]
 CacheOf(hh) == [ee \in Evals |-> { hh[ii].key : ii \in { jj \in 1..Len(hh) : hh[jj].e = ee } }]
 
